@@ -64,6 +64,9 @@ def concretize(prop, ob):
             out.append(("mp_fork_wait", {}))
     if "W-Obj-written-under-its-cid-lock" in name or name.endswith("one-guard/Obj"):
         out.append(("race_store_delete", {}))
+    if "W-CidRef" in name or name.endswith("one-guard/CidRef") or "R-coverage/CidRef" in name \
+            or "R-coverage/Obj" in name:
+        out.append(("race_cid_pause", {}))
     if "W-Meta" in name or name.endswith("one-guard/Meta"):
         out.append(("race_meta_pause", {}))
     if "W-PidRef" in name or name.endswith("one-guard/PidRef"):
@@ -93,6 +96,8 @@ def concretize(prop, ob):
     if short_name(fn) == "store_object" and ("post/locks" in name or "releases-held" in name
                                              or "release-only-own" in name):
         out.append(("race_same_pid_store", {}))
+    if "/pre:lock-order" in name or "/pre:not-already-held" in name:
+        out.append(("race_lock_order", {}))
     if name == "sync/acquired-identifier-is-free":
         out.append(("race_wakeup", {"class": "cid" if "cid" in detail else "pid"}))
         out.append(("race_wakeup", {"class": "cid" if "cid" in detail else "pid", "mp": True}))
